@@ -12,7 +12,9 @@ use aws_sdk_s3::primitives::ByteStream;
 use serde_json::json;
 
 const BUCKETS: &[&str] = &["bucket-one", "second.bucket", "b3b"];
-const KEYS: &[&str] = &["a.txt", "b/c", "b/d", "e/f/g", "k1", "zz top"];
+// (no key is a directory prefix of another; siblings of a nested key continue its first component with characters that
+// sort below and above '/': key order is by the whole string, not component by component)
+const KEYS: &[&str] = &["a.txt", "b/c", "b/d", "e/f/g", "k1", "zz top", "b-1", "b.txt", "b0", "e/f-1"];
 const PART_MIN: usize = 5 * 1024 * 1024;
 
 #[derive(Debug, Clone, PartialEq)]
